@@ -72,11 +72,13 @@ Inductive req_result :=
 | RType (k : kind)        (* LinterRequestError "Type conversion failed, cannot convert <k> statement" *)
 | RCrash | RHang.
 
-Definition read_request (t : kind) (bs : list byte) : req_result :=
-  match decode bs with
+(* what ReadLinterRequest[T] makes of the decoder's result *)
+Definition classify (t : kind) (d : res (list stmt)) : req_result :=
+  match d with
   | OK [] => REmpty
   | OK (s :: _) => if kind_eqb (kind_of s) t then ROk s else RType (kind_of s)
   | Err => RDecodeErr
   | Crash => RCrash
   | OutOfFuel => RHang
   end.
+Definition read_request (t : kind) (bs : list byte) : req_result := classify t (decode bs).
